@@ -65,6 +65,11 @@ def payload(draw, max_sigs=12, allow_big=False, min_sigs=1, allow_medium=False, 
 			'description': draw(OPT_TEXT),
 			'extra': draw(st.one_of(st.none(), st.just({}), st.dictionaries(TEXT, JSON_VALUE, max_size=4))),
 		}
+		if draw(st.integers(0, 24)) == 24:
+			# metadata larger than 64 KiB (curation notes, a table of accessions): no part of the format bounds its size
+			unit = draw(st.sampled_from(['curation note 0123456789 ', '注釈と系統の記録 ', 'x']))
+			meta['extra'] = {'notes': unit * (70000 // len(unit) + 1), 'table': [[i, f'acc{i}'] for i in range(draw(st.sampled_from([0, 3000])))]}
+			meta['description'] = draw(st.sampled_from([None, 'd' * 70000]))
 	# stored integer type: usually the k-mer spec's index dtype, sometimes a wider / signed one (legitimate: the type only has to hold the values)
 	width = 1 if k <= 4 else 2 if k <= 8 else 4 if k <= 16 else 8
 	wider = [f'u{w}' for w in (1, 2, 4, 8) if w > width] + [f'i{w}' for w in (2, 4, 8) if w > width]
